@@ -307,6 +307,16 @@ def write_evidence(prop, eng, tier, seed, agg, wall, nviol, known_hits, extra_co
         'wall_s': round(wall, 2),
         'violations': nviol,
     }
+    def clean(x):
+        # lone surrogates (part of the alphabet) are not valid in strict JSON/UTF-8 consumers
+        if isinstance(x, str):
+            return x.encode('utf-8', 'backslashreplace').decode('utf-8')
+        if isinstance(x, list):
+            return [clean(y) for y in x]
+        if isinstance(x, dict):
+            return {clean(k): clean(v) for k, v in x.items()}
+        return x
+    ev = clean(ev)
     d = os.path.join(VERIF, 'evidence')
     if os.path.abspath(repo_path()) != '/repo':
         d = os.path.join(OUT, 'evidence-scratch')   # a scratch copy is under test: not evidence
